@@ -1386,10 +1386,230 @@ func bundleIndexBoundedRule(p *engine.Prog, r *engine.Report, rule string) {
 	}
 }
 
+// C12-R16: a header flag that makes the block processor dereference Header.OfflineAddr() (nil when the
+// header carries none) is refused without an address by the header check every path runs
+// (ValidateHeader): some error return of ValidateHeader is controlled by HasFlag(mask ∋ flag) and by
+// the nil side of a test of OfflineAddr(). The offline detector applies that rule to proposals only;
+// fork and sync blocks reach applyGlobalParams through validateBlock without it.
+func offlineAddrEstablishedRule(p *engine.Prog, r *engine.Report, rule string) {
+	vh := mustFunc(p, r, "blockchain", "Blockchain.ValidateHeader")
+	if vh == nil {
+		return
+	}
+	commit := constInt(p, "blockchain/types", "OfflineCommit")
+	established := false
+	for _, iff := range engine.Ifs(vh) {
+		x, nonNilOnTrue, ok := engine.NilCheck(iff.Cond)
+		if !ok {
+			continue
+		}
+		c, isC := engine.Unwrap(x).(*ssa.Call)
+		if !isC || !engine.CallNameIs(c, "OfflineAddr") {
+			continue
+		}
+		nilSucc := iff.Block().Succs[0]
+		if nonNilOnTrue {
+			nilSucc = iff.Block().Succs[1]
+		}
+		refuses := false
+		for _, ins := range nilSucc.Instrs {
+			if ret, ok := ins.(*ssa.Return); ok && retErrKind(ret) == "nonnil" {
+				refuses = true
+			}
+		}
+		if !refuses {
+			continue
+		}
+		// controlled by HasFlag(mask) with the commit bit in the mask
+		for _, d := range vh.Blocks {
+			if len(d.Instrs) == 0 {
+				continue
+			}
+			di, ok := d.Instrs[len(d.Instrs)-1].(*ssa.If)
+			if !ok || len(d.Succs) < 1 || !(d.Succs[0] == iff.Block() || d.Succs[0].Dominates(iff.Block())) || len(d.Succs[0].Preds) != 1 {
+				continue
+			}
+			hc, isC := engine.Unwrap(di.Cond).(*ssa.Call)
+			if !isC || !engine.CallNameIs(hc, "HasFlag") {
+				continue
+			}
+			for _, a := range hc.Call.Args {
+				if m, ok := engine.ConstInt(a); ok && commit != 0 && m&commit != 0 {
+					established = true
+				}
+			}
+		}
+	}
+	n := 0
+	for _, pk := range []string{"blockchain"} {
+		for _, f := range funcsOfPkg(p, pk) {
+			if f.Blocks == nil || isTestish(p.Pos(f.Pos())) {
+				continue
+			}
+			_, bads := unguardedNilableUses(f, func(c *ssa.Function) bool { return c.Name() == "OfflineAddr" })
+			for _, b := range bads {
+				n++
+				r.Fn(engine.FuncName(f))
+				r.Check(established, rule, uniq(r, engine.RelName(f)+"|the offline address it dereferences is established by ValidateHeader"), p.InstrPos(b.use), "ValidateHeader refuses an Offline* flag without an address", engine.RelName(f)+" dereferences Header.OfflineAddr() unchecked and ValidateHeader — the only header check on the fork and sync paths — does not refuse a header whose OfflineCommit flag is set without an address (only the offline detector does, for proposals): a fork block with the flag and no address, from any identity allowed to propose, reaches the dereference through ValidateSubChain -> validateBlock -> applyBlockOnState before any certificate check, in a goroutine without recover")
+			}
+		}
+	}
+	r.Check(n > 0, rule, "sites|an unchecked dereference of OfflineAddr() exists (control)", "", fmt.Sprint(n), "no function of package blockchain dereferences OfflineAddr() unchecked any more: the pairing is vacuous")
+}
+
+// C12-R17: IdentityStateDB.AddDiff — fed with a diff a peer delivered during fast sync — refuses an
+// entry that is neither deleted nor carries a value before the tree is touched: the tree panics on
+// a nil value, and an omitted protobuf bytes field decodes to nil.
+func peerDiffValueTestedRule(p *engine.Prog, r *engine.Report, rule string) {
+	f := mustFunc(p, r, "core/state", "IdentityStateDB.AddDiff")
+	if f == nil {
+		return
+	}
+	isValueField := func(v ssa.Value) bool {
+		for x := range engine.BackSlice(v, engine.SliceOpts{ThroughLoads: true, MaxNodes: 30}) {
+			if u, ok := x.(*ssa.UnOp); ok && u.Op == token.MUL {
+				if _, fld, ok := engine.FieldOf(u.X); ok && fld == "Value" {
+					return true
+				}
+			}
+		}
+		return false
+	}
+	var check *ssa.If
+	for _, iff := range engine.Ifs(f) {
+		cond, _ := stripNot(iff.Cond)
+		bo, ok := cond.(*ssa.BinOp)
+		if !ok {
+			continue
+		}
+		if x, _, isNil := engine.NilCheck(cond); isNil && isValueField(x) {
+			check = iff
+			continue
+		}
+		if c, isC := engine.ConstInt(bo.Y); isC && c == 0 {
+			if lc, isCall := engine.Unwrap(bo.X).(*ssa.Call); isCall {
+				if b, isB := lc.Call.Value.(*ssa.Builtin); isB && b.Name() == "len" && isValueField(lc.Call.Args[0]) {
+					check = iff
+				}
+			}
+		}
+	}
+	var writes []ssa.CallInstruction
+	for _, c := range engine.Calls(f) {
+		if engine.CallNameIs(c, "updateStateIdentityObjectRaw", "Set") {
+			writes = append(writes, c)
+		}
+	}
+	if len(writes) == 0 {
+		r.Bad(rule, "AddDiff|raw value written", p.Pos(f.Pos()), "no raw write found in AddDiff: anchor moved")
+		return
+	}
+	for _, w := range writes {
+		ok := false
+		if check != nil {
+			cb := check.Block()
+			if h := enclosingLoopHeader(cb); h != nil && !loopBlocks(h)[w.Block()] && h.Dominates(w.Block()) {
+				ok = true // a validation pass over all entries before the first write
+			}
+			if cb.Dominates(w.Block()) && cb != w.Block() {
+				ok = true // tested per entry on the way to the write
+			}
+		}
+		r.Check(ok, rule, uniq(r, "AddDiff|a peer's diff value is tested for emptiness before it reaches the tree"), p.InstrPos(w), "refused before any write", "AddDiff hands the raw value of a diff entry to the tree without testing it: the diff comes from a peer's BlocksRange answer during fast sync (applied before the identity root is compared), an entry with deleted=false and the value omitted decodes to nil, and the tree panics on a nil value — in the block consumer goroutine, which has no recover")
+	}
+}
+
+// C12-R18: the VRF verifier never hands absent coordinates to the curve: ScalarMult/ScalarBaseMult
+// answer (nil, nil) for a scalar that is zero or not below the group order, and the scalars are the
+// first 64 bytes of a proof any peer sends; every curve.Add in crypto/vrf/p256 whose operands come
+// from such a call is reachable only through a nil test of each of them. The curve's own Add treats
+// equal points and the point at infinity (no modular inverse) without dereferencing nil.
+func vrfScalarResultsTestedRule(p *engine.Prog, r *engine.Report, rule string) {
+	n := 0
+	for _, f := range funcsOfPkg(p, "crypto/vrf/p256") {
+		if f.Blocks == nil || isTestish(p.Pos(f.Pos())) {
+			continue
+		}
+		for _, c := range engine.Calls(f) {
+			if !engine.CallNameIs(c, "Add") || len(c.Common().Args) < 4 {
+				continue
+			}
+			srcs := map[*ssa.Call]bool{}
+			for _, a := range c.Common().Args {
+				if ex, ok := engine.Unwrap(a).(*ssa.Extract); ok {
+					if sc, ok := ex.Tuple.(*ssa.Call); ok && engine.CallNameIs(sc, "ScalarMult", "ScalarBaseMult") {
+						srcs[sc] = true
+					}
+				}
+			}
+			if len(srcs) == 0 {
+				continue
+			}
+			n++
+			r.Fn(engine.FuncName(f))
+			ok := true
+			for sc := range srcs {
+				sc := sc
+				guards := guardsWhere(f, func(cond ssa.Value) (bool, bool, string) {
+					x, nonNilOnTrue, isNil := engine.NilCheck(cond)
+					if !isNil {
+						return false, false, ""
+					}
+					if ex, isEx := engine.Unwrap(x).(*ssa.Extract); isEx && ex.Tuple == ssa.Value(sc) {
+						return true, nonNilOnTrue, "coordinate != nil"
+					}
+					return false, false, ""
+				})
+				if len(guards) == 0 || !engine.OnlyThroughPass(f, c.Block(), guards) {
+					ok = false
+				}
+			}
+			r.Check(ok, rule, uniq(r, engine.RelName(f)+"|scalar multiplication results are tested before they are added"), p.InstrPos(c), "behind nil tests of every operand's source", "curve.Add receives the result of a scalar multiplication that is (nil, nil) for a scalar that is zero or not below the group order — the scalars are bytes 0..63 of the proof in a ProposeProof / ProposeBlock message any peer can send (129 bytes, any throw-away key): the peer's read goroutine dereferences nil, no recover")
+		}
+	}
+	r.Check(n >= 2, rule, "scan|curve additions of scalar products (control)", "", fmt.Sprint(n), "fewer than two such additions found in crypto/vrf/p256: anchor moved")
+	if f := mustFunc(p, r, "crypto/secp256k1", "BitCurve.affineFromJacobian"); f != nil {
+		var inv ssa.CallInstruction
+		for _, c := range engine.Calls(f) {
+			if engine.CallNameIs(c, "ModInverse") {
+				inv = c
+			}
+		}
+		ok := false
+		if inv != nil {
+			z := ssa.Value(f.Params[len(f.Params)-1])
+			for _, iff := range engine.Ifs(f) {
+				if !iff.Block().Dominates(inv.Block()) || iff.Block() == inv.Block() {
+					continue
+				}
+				for v := range engine.BackSlice(iff.Cond, engine.SliceOpts{ThroughCalls: true, MaxNodes: 20}) {
+					if v == z {
+						ok = true
+					}
+				}
+			}
+		}
+		r.Check(ok, rule, "affineFromJacobian|the point at infinity is handled before the inverse is taken", p.Pos(f.Pos()), "z tested before ModInverse", "ModInverse answers nil when z is zero (the sum of opposite points — a sender who signs with key k picks t = -s*k) and the nil is multiplied right away: nil dereference on a peer's proof")
+	}
+	if f := mustFunc(p, r, "crypto/secp256k1", "BitCurve.Add"); f != nil {
+		ok := false
+		for _, c := range engine.Calls(f) {
+			if engine.CallNameIs(c, "doubleJacobian") && len(controlSig(c.Block())) > 0 {
+				ok = true
+			}
+		}
+		r.Check(ok, rule, "BitCurve.Add|equal points are doubled, not added", p.Pos(f.Pos()), "doubleJacobian behind an equality test", "addJacobian is not defined for equal points (z3 = 0, no inverse): a sender who signs with key k picks t = s*k and the verifier's Add dereferences nil")
+	}
+}
+
 func init() {
 	extend("C12", func(p *engine.Prog, r *engine.Report) {
 		bundleIndexBoundedRule(p, r, "C12-R14")
-		r.Explanation += " (R13) where an executor dereferences an empty-able lookup unchecked (VmImpl.terminate: GetCodeHash; applyTxOnState: the attachment parsers), the matching validator refuses the transaction on every path on which that lookup is empty; (R14) a non-constant index into a peer-delivered []BlockBundle is bounded by the list's length (range, len-relative, tested, or behind a length agreement test)."
+		offlineAddrEstablishedRule(p, r, "C12-R16")
+		peerDiffValueTestedRule(p, r, "C12-R17")
+		vrfScalarResultsTestedRule(p, r, "C12-R18")
+		nilableLookupRule(p, r, "C12-R15", []string{"consensus"}, []string{"Blockchain.GetBlockByHeight"}, nil, "the height comes from a block range a peer delivered: for a height this node does not store (below the first block of a fast-synced node, height 0) the lookup is empty and the goroutine that resolves forks dereferences nil — no recover on that path")
+		r.Explanation += " (R13) where an executor dereferences an empty-able lookup unchecked (VmImpl.terminate: GetCodeHash; applyTxOnState: the attachment parsers), the matching validator refuses the transaction on every path on which that lookup is empty; (R15) in package consensus the result of Blockchain.GetBlockByHeight (empty for a height this node does not store) is used only behind its non-nil test; (R16) an Offline* flag without an address is refused by ValidateHeader wherever OfflineAddr() is dereferenced unchecked; (R17) IdentityStateDB.AddDiff tests a peer's diff values for emptiness before any tree write; (R18) the VRF verifier tests scalar-multiplication results before adding them and the curve handles equal points / the point at infinity; (R14) a non-constant index into a peer-delivered []BlockBundle is bounded by the list's length (range, len-relative, tested, or behind a length agreement test)."
 		validatorEstablishesRule(p, r, "C12-R13", [][5]string{
 			{"vm", "VmImpl.terminate", "blockchain/validation", "validateTerminateContractTx", "GetCodeHash"},
 			{"blockchain", "Blockchain.applyTxOnState", "blockchain/validation", "validateBurnTx", "ParseBurnAttachment"},
